@@ -783,6 +783,8 @@ func replayC18(c *Ctx, op string, args []string) bool {
 		c18ReplayHist(c, m)
 	case "auth.hs":
 		c18ReplayHandshake(c, m)
+	case "auth.hs2":
+		c18ReplayHandshake2(c, m)
 	case "bot.hs":
 		c18ReplayBotHs(c, m)
 	case "pubkey.verify":
